@@ -384,3 +384,36 @@ ID(P13_quat_ops__rhs)(const S *in, S *out)
   out[48] = in[0] + s; out[49] = in[1]; out[50] = in[2]; out[51] = in[3];
   out[52] = s - in[0]; out[53] = -in[1]; out[54] = -in[2]; out[55] = -in[3];
 }
+
+// ------------------------------------------------------------------------------------------ P14: slerp end points
+// slerp(0, a, b) is the (hemisphere-corrected) first operand and slerp(1, a, b) the second one, on both branches: on the spherical branch
+// the weights are fb = sin(t*th)/sin(th), fa = cos(t*th) - d*fb with th = acos(d)
+// (sin 0 = 0, cos 0 = 1, cos(acos d) = d are the trig facts used); on the nearly-parallel branch the normalised lerp.
+ID(P14_slerp_ends__lhs)(const S *in, S *out)
+{
+  Q a = mkq(in), b = mkq(in + 4);
+  put(out, slerp(0.f, a, b));
+  put(out + 4, slerp(1.f, a, b));
+}
+ID(P14_slerp_ends__rhs)(const S *in, S *out)
+{
+  S d = in[0] * in[4] + in[1] * in[5] + in[2] * in[6] + in[3] * in[7];
+  S sg = 1;
+  if (d < 0.) {
+    sg = -1;
+    d  = -d;
+  }
+  if (d > 0.9995) {
+    const S la = std::sqrt(in[0] * in[0] + in[1] * in[1] + in[2] * in[2] + in[3] * in[3]);
+    const S lb = std::sqrt(in[4] * in[4] + in[5] * in[5] + in[6] * in[6] + in[7] * in[7]);
+    for (int k = 0; k < 4; ++k) {
+      out[k]     = sg * in[k] / la;
+      out[4 + k] = in[4 + k] / lb;
+    }
+    return;
+  }
+  for (int k = 0; k < 4; ++k) {
+    out[k]     = sg * in[k];
+    out[4 + k] = in[4 + k];
+  }
+}
